@@ -1,33 +1,51 @@
-// C05 (options constructors) - the parser constructors take their values by rvalue: they must move them in without
-// copying and must not read them afterwards; parse() on the (const) parser must leave the stored values untouched.
-// Real code: fcppt::options::{flag, option, many} constructors and parse() (flag: flag given / not given, option:
-// default value used) with the instrumented element type of C05_common.hpp as the value type, on top of a unity
-// build of libs/options.
-// Outside the claim: parsing a value of the element type from a string (fcppt::extract_from_string: iostreams are not
-// executable in the engine; operator>> / operator<< below exist only to satisfy the templates), usage()/help texts,
-// fcppt::parse::sequence / repetition (their only entry points need a std::istream).
-// Violation on the unchanged tree (triaged as genuine): h_options_flag_ctor: the flag constructor compares
-//   `_active_value.get() == _inactive_value.get()` AFTER both parameters were moved into the members; with
-//   Type = std::string the moved-from strings are both empty and the constructor throws "The active and the inactive
-//   value must be different" for any two distinct strings.
+// C05 (options) - parser constructors take their values by rvalue: they must move them in without copying and must
+// not read them afterwards; parse() on the (const) parser leaves the stored values untouched; RUNNING many / optional
+// moves every parsed value into the result (no copy of an already parsed value), results in argument order.
+// Real code: fcppt::options::{flag, option, argument, many, optional} constructors and parse(), options::parse
+// (parse_to_empty) with the instrumented element type of C05_common.hpp as the value type, on top of a unity build of
+// libs/options.  many(argument<elem>) and many(option<elem>) run on 0..3 repetitions (thorough 4), optional(argument)
+// on 0..1, an unconvertible token at every position of many(argument).
+// Replaced (same way as kernels/C03_env.hpp, by explicit specialisation shared by engine and native build):
+//   fcppt::extract_from_string<elem>(token) = a FRESH element (next identity, symbolic payload), or nothing for the
+//   token "bad"; fcppt::output_to_fcppt_string<elem> and options::pretty_type_impl<elem> = placeholders (message text).
+// Outside the claim: operator>> on the element type, usage()/help texts, fcppt::parse::sequence / repetition (their
+// only entry points need a std::istream).
+// Finding of the first round (fixed in /repo since): the flag constructor compared its parameters after moving from
+// them (h_options_flag_ctor).
 //@property C05
 //@unity options
+//@models rbtree
 //@flags -I/repo/_build/impl/include
-#define C05_DEFAULT_CTOR
 #include "C05_common.hpp"
-#include <istream>
-#include <ostream>
+#include <fcppt/extract_from_string.hpp>
+#include <fcppt/output_to_fcppt_string.hpp>
+#include <fcppt/string.hpp>
+#include <fcppt/optional/object_impl.hpp>
+#include <fcppt/options/pretty_type_impl.hpp>
+#include <string>
 namespace c05
 {
-template <int K>
-std::ostream &operator<<(std::ostream &s, elem_t<K> const &e)
-{
-  return s << e.id;
+inline int g_next_id = 0; // identity of the next element "converted" from a token
 }
-template <int K>
-std::istream &operator>>(std::istream &s, elem_t<K> &e)
+namespace fcppt
 {
-  return s >> e.id;
+template <>
+inline fcppt::optional::object<c05::elem> extract_from_string<c05::elem, std::string>(std::string const &_s)
+{
+  return _s == "bad" ? fcppt::optional::object<c05::elem>{} : fcppt::optional::object<c05::elem>{c05::mk(c05::g_next_id++)};
+}
+template <>
+inline fcppt::string output_to_fcppt_string<c05::elem>(c05::elem const &)
+{
+  return fcppt::string{"<elem>"};
+}
+namespace options
+{
+template <>
+struct pretty_type_impl<c05::elem>
+{
+  static fcppt::string get() { return fcppt::string{"elem"}; }
+};
 }
 }
 #include <fcppt/args_vector.hpp>
@@ -40,7 +58,11 @@ std::istream &operator>>(std::istream &s, elem_t<K> &e)
 #include <fcppt/options/make_active_value.hpp>
 #include <fcppt/options/make_default_value.hpp>
 #include <fcppt/options/make_inactive_value.hpp>
+#include <fcppt/options/argument.hpp>
 #include <fcppt/options/many_impl.hpp>
+#include <fcppt/options/optional_impl.hpp>
+#include <fcppt/options/parse.hpp>
+#include <fcppt/options/result.hpp>
 #include <fcppt/options/option.hpp>
 #include <fcppt/options/option_name_set.hpp>
 #include <fcppt/options/optional_help_text.hpp>
@@ -57,6 +79,7 @@ std::istream &operator>>(std::istream &s, elem_t<K> &e)
 #include "libs/core/src/type_name.cpp"
 #include "libs/core/src/type_name_from_info.cpp"
 #include <utility>
+#include <vector>
 
 namespace
 {
@@ -138,6 +161,84 @@ void options_option_many()
   verif_out("has_default", has_default);
   verif_reach("end");
 }
+
+// ---------------------------------------------------------------- running many / optional
+using argument_t = op::argument<lab, elem>;
+option_t mkoption() { return option_t{op::optional_short_name{}, op::long_name{FCPPT_TEXT("f")}, op::make_default_value(fcppt::optional::object<elem>{}), op::optional_help_text{}}; }
+argument_t mkargument() { return argument_t{op::long_name{FCPPT_TEXT("a")}, op::optional_help_text{}}; }
+void check_in_order(std::vector<elem> const &v, unsigned const n, msgs const &m)
+{
+  verif_assert(v.size() == n, m.count);
+  census c;
+  for (unsigned i = 0; i < v.size(); ++i)
+  {
+    c.note(v[i]);
+    verif_assert(v[i].read() == static_cast<int>(i), m.count); // i-th repetition -> i-th converted element
+  }
+  for (unsigned i = 0; i < n; ++i) verif_assert(c.of(static_cast<int>(i)) == 1, m.count);
+}
+
+void options_many_argument()
+{
+  msgs const m = C05_MSGS("options::many(argument) parse");
+  reset();
+  g_next_id = 0;
+  unsigned const n{static_cast<unsigned>(verif_param("n"))};
+  unsigned const bad{static_cast<unsigned>(verif_param("bad"))}; // position of an unconvertible token, n = none
+  fcppt::args_vector args;
+  for (unsigned i = 0; i < n; ++i) args.push_back(i == bad ? fcppt::string{"bad"} : fcppt::string{"tok"});
+  op::many<argument_t> const parser{mkargument()};
+  begin_op();
+  auto const r{op::parse(parser, args)};
+  verif_assert(r.has_success() == (bad >= n), m.count);
+  if (r.has_success()) check_in_order(fcppt::record::get<lab>(r.get_success_unsafe()), n, m);
+  verif_assert(g_next_id == static_cast<int>(bad < n ? bad : n), m.count); // every token is converted exactly once, none after the bad one
+  verdict<RV>(m);
+  verif_reach("end");
+}
+
+void options_many_option()
+{
+  msgs const m = C05_MSGS("options::many(option) parse");
+  reset();
+  g_next_id = 0;
+  unsigned const n{static_cast<unsigned>(verif_param("n"))};
+  fcppt::args_vector args;
+  for (unsigned i = 0; i < n; ++i)
+  {
+    args.push_back(fcppt::string{"--f"});
+    args.push_back(fcppt::string{"tok"});
+  }
+  op::many<option_t> const parser{mkoption()};
+  begin_op();
+  auto const r{op::parse(parser, args)};
+  verif_assert(r.has_success(), m.count);
+  check_in_order(fcppt::record::get<lab>(r.get_success_unsafe()), n, m);
+  verif_assert(g_next_id == static_cast<int>(n), m.count);
+  verdict<RV>(m);
+  verif_reach("end");
+}
+
+void options_optional_argument()
+{
+  msgs const m = C05_MSGS("options::optional(argument) parse");
+  reset();
+  g_next_id = 0;
+  unsigned const n{static_cast<unsigned>(verif_param("n"))};
+  fcppt::args_vector args;
+  for (unsigned i = 0; i < n; ++i) args.push_back(fcppt::string{"tok"});
+  op::optional<argument_t> const parser{mkargument()};
+  begin_op();
+  auto const r{op::parse(parser, args)};
+  verif_assert(r.has_success(), m.count);
+  fcppt::optional::object<elem> const &o{fcppt::record::get<lab>(r.get_success_unsafe())};
+  verif_assert(o.has_value() == (n == 1), m.count);
+  census c;
+  if (o.has_value()) c.note(o.get_unsafe());
+  verif_assert(c.of(0) == (n == 1 ? 1 : 0) && g_next_id == static_cast<int>(n), m.count);
+  verdict<RV>(m);
+  verif_reach("end");
+}
 }
 
 VERIF_HARNESS(h_options_flag_ctor) { options_flag_ctor(); }
@@ -146,3 +247,11 @@ VERIF_HARNESS(h_options_flag_parse) { options_flag_parse(); }
 //@harness h_options_flag_parse tier=quick throws=_ZTIN5fcppt7options9exceptionE
 VERIF_HARNESS(h_options_option_many) { options_option_many(); }
 //@harness h_options_option_many tier=quick throws=_ZTIN5fcppt7options9exceptionE
+VERIF_HARNESS(h_options_many_argument) { options_many_argument(); }
+//@harness h_options_many_argument param n=0..3 param bad=0..3 if bad<=n tier=quick loop=200 throws=_ZTIN5fcppt7options9exceptionE
+//@harness h_options_many_argument param n=4 param bad=0,2,4 tier=thorough loop=200 throws=_ZTIN5fcppt7options9exceptionE
+VERIF_HARNESS(h_options_many_option) { options_many_option(); }
+//@harness h_options_many_option param n=0..3 tier=quick loop=200 throws=_ZTIN5fcppt7options9exceptionE
+//@harness h_options_many_option param n=4 tier=thorough loop=200 throws=_ZTIN5fcppt7options9exceptionE
+VERIF_HARNESS(h_options_optional_argument) { options_optional_argument(); }
+//@harness h_options_optional_argument param n=0..1 tier=quick loop=200 throws=_ZTIN5fcppt7options9exceptionE
